@@ -517,4 +517,100 @@ theorem k_place_eq (nrow ncol : Nat) (cw : List Nat) (fuel : Nat) (h2r : 2 ≤ n
     rw [k_setBit_eq ncol _ _ _ true _ hcell2 (by simpa using hn2)]
     simp
 
+when_kernel Gzx.Gen.K08bPlace.place in
+/-- the picture of the final reference state satisfies the invariant (obtained through the simulation) -/
+theorem place_inv (nrow ncol : Nat) (cw : List Nat) (hb : (placeState nrow ncol).bad = false)
+    (hl : (placeState nrow ncol).seq.length ≤ 8 * cw.length) :
+    Inv nrow ncol cw (paint cw (placeSeq nrow ncol) 0 (List.replicate (nrow * ncol) (-1))) (placeState nrow ncol) := by
+  have hg : Good cw.length (placeLoop nrow ncol (nrow + ncol) {} 4 0) := ⟨hb, hl⟩
+  obtain ⟨B', pos', r', c', _, I'⟩ := placeLoop_sim (cw := cw) (nrow + ncol + 1) (by omega) (nrow + ncol) (nrow + ncol + 1) {} 4 0
+    (List.replicate (nrow * ncol) (-1)) 0 (by omega) (inv_init nrow ncol cw) rfl hg
+  have hval : B' = paint cw (placeSeq nrow ncol) 0 (List.replicate (nrow * ncol) (-1)) := I'.val
+  rw [← hval]; exact I'
+
+when_kernel Gzx.Gen.K08bPlace.place in
+/-- **what `GetBit` reads after `Place()` is the reference mapping matrix** `DMRef.mappingBits` (the matrix the C08 theorems
+    `read_place_inv`, `encoder_matrix_conforms` … are about), cell by cell; `hfree`: the fixed pattern, when used, lies on
+    unassigned cells (`SizeFacts.fixedFree`, checked for the 30 sizes) -/
+theorem placeBits_getBit (nrow ncol : Nat) (cw : List Nat) (h2r : 2 ≤ nrow) (h2c : 2 ≤ ncol)
+    (hb : (placeState nrow ncol).bad = false) (hl : (placeState nrow ncol).seq.length ≤ 8 * cw.length)
+    (hfree : ∀ p ∈ fixedCells nrow ncol, (placeState nrow ncol).occ.testBit p.1 = false) (c : Nat) :
+    ((placeBits nrow ncol cw).getD c (-1) == 1) = (mappingBits nrow ncol cw).getD c false := by
+  have I := place_inv nrow ncol cw hb hl
+  have hmul : 2 * ncol ≤ nrow * ncol := Nat.mul_le_mul_right ncol h2r
+  have hps := paint_scatter cw (placeSeq nrow ncol) 0 (List.replicate (nrow * ncol) (-1)) (Array.replicate (nrow * ncol) false)
+    (by simp) (by simpa [placeSeq] using hl)
+    (by
+      intro x
+      simp only [List.getD_eq_getElem?_getD, Array.getD_eq_getD_getElem?]
+      by_cases hx : x < nrow * ncol <;> simp [hx])
+  simp only [List.drop_zero] at hps
+  unfold placeBits mappingBits
+  simp only []
+  generalize hB : paint cw (placeSeq nrow ncol) 0 (List.replicate (nrow * ncol) (-1)) = B at hps I
+  generalize hG : scatter (placeSeq nrow ncol) (allBits cw) (Array.replicate (nrow * ncol) false) = g at hps
+  have hBl : B.length = nrow * ncol := I.len
+  have hGl : g.size = nrow * ncol := by
+    have : ∀ (cs : List Nat) (bs : List Bool) (a : Array Bool), (scatter cs bs a).size = a.size := by
+      intro cs
+      induction cs with
+      | nil => intro bs a; simp [scatter]
+      | cons x cs ih =>
+        intro bs a
+        cases bs with
+        | nil => simp [scatter]
+        | cons b bs => simp [scatter, ih]
+    rw [← hG, this]; simp
+  have hocc := I.occ
+  by_cases hfu : fixedUsed nrow ncol = true
+  · have hfc : fixedCells nrow ncol =
+        [(nrow * ncol - ncol - 2, true), (nrow * ncol - ncol - 1, false), (nrow * ncol - 2, false), (nrow * ncol - 1, true)] := by
+      unfold fixedCells; simp [hfu]
+    have hf2 := hfree (nrow * ncol - ncol - 1, false) (by rw [hfc]; simp)
+    have hf3 := hfree (nrow * ncol - 2, false) (by rw [hfc]; simp)
+    have ho2 := hocc (nrow * ncol - ncol - 1) (by omega)
+    have ho3 := hocc (nrow * ncol - 2) (by omega)
+    rw [hf2] at ho2; rw [hf3] at ho3
+    have hn2 : ¬ (B.getD (nrow * ncol - ncol - 1) (-1) ≥ 0) := by simpa using ho2.symm
+    have hn3 : ¬ (B.getD (nrow * ncol - 2) (-1) ≥ 0) := by simpa using ho3.symm
+    simp only [hfu, if_true, hfc, List.map_cons, List.map_nil, scatter]
+    have hx := hps c
+    clear hocc hf2 hf3 ho2 ho3 hfree hfc hps hB hG I hl hb hfu
+    generalize nrow * ncol = n at *
+    have hne2 : ¬ (B.getD (n - ncol - 1) (-1) = 1) := by omega
+    have hne3 : ¬ (B.getD (n - 2) (-1) = 1) := by omega
+    simp only [List.getD_eq_getElem?_getD, Array.getD_eq_getD_getElem?, List.getElem?_set, Array.getElem?_setIfInBounds,
+      List.length_set, Array.size_setIfInBounds, hBl, hGl] at hx hne2 hne3 ⊢
+    by_cases h4 : n - 1 = c
+    · subst h4
+      have e1 : ¬ (n - ncol - 2 = n - 1) := by omega
+      have l1 : n - 1 < n := by omega
+      simp [e1, l1]
+    · by_cases h1 : n - ncol - 2 = c
+      · subst h1
+        have l1 : n - ncol - 2 < n := by omega
+        have e2 : ¬ (n - 2 = n - ncol - 2) := by omega
+        have e3 : ¬ (n - ncol - 1 = n - ncol - 2) := by omega
+        simp [h4, l1, e2, e3]
+      · by_cases h3 : n - 2 = c
+        · subst h3
+          have l1 : n - 2 < n := by omega
+          simp [h4, h1, l1, hne3]
+        · by_cases h2 : n - ncol - 1 = c
+          · subst h2
+            have l1 : n - ncol - 1 < n := by omega
+            simp [h4, h1, h3, l1, hne2]
+          · simp only [h4, h1, h2, h3, if_false]
+            exact hx
+  · have hfu' : fixedUsed nrow ncol = false := by simpa using hfu
+    have hfc : fixedCells nrow ncol = [] := by unfold fixedCells; simp [hfu']
+    simp only [hfu', Bool.false_eq_true, if_false, hfc, List.map_nil, scatter]
+    exact hps c
+
+-- non-vacuity: the 8x8 mapping matrix of the 10x10 symbol (8 codewords), fuel 17
+when_kernel Gzx.Gen.K08bPlace.place in
+example : Gen.K08bPlace.place 17 (bytes [142, 164, 186, 114, 25, 5, 88, 102]) 8 8 (List.replicate 64 (-1)) =
+    .ok (placeBits 8 8 [142, 164, 186, 114, 25, 5, 88, 102]) := by decide +kernel
+example : (placeState 8 8).bad = false ∧ (placeState 8 8).seq.length = 64 := by decide +kernel
+
 end Gzx.Obligations.K08c
